@@ -45,7 +45,7 @@ ASSUMPTIONS = [
     'instances, related by, with and without where clause, one / any / many) / for each -- never by an assignment -- may be spelled like '
     'a constant of the host (TEN, Red; thorough also like an enumerator, a constant group, an enumeration): the innermost declaration '
     'wins, every read of the name is a read of the variable and is regenerated as such; every program of the statement family is run '
-    'once per such variable with the variable renamed (one home and one name, rotating; thorough all homes and names), and every declaration form is '
+    'once per such variable with the variable renamed (one home and one of the two names, rotating; thorough: a second time under one of the other names), and every declaration form is '
     'combined with every kind of read (right-hand side, operand, unary operand, attribute handle, operation handle, navigation start, '
     'parameter value, condition, where clause, return value, assigned again), also next to the qualified constant of that name.  '
     'A name first introduced by an assignment stays excluded (the un-namespaced constant read above)',
@@ -55,7 +55,7 @@ ASSUMPTIONS = [
     'for each over it, arithmetic); every ordered pair of types (equal types too) x every use of the second type x eleven placements '
     '(after an if / else / elif / while / for each block, sibling clauses of one if, two containers in a row, after an inner block inside '
     'an outer one, declared two blocks deep); quick: one pair of declaration forms per pair of types (rotating through all forms), one '
-    'home per program; thorough: every pair of forms, every home, three more placements',
+    'home per program (rotating); thorough: every form of either type per pair of types, three more placements',
 ]
 
 REQUIRED_FEATURES = [
@@ -218,7 +218,7 @@ def reads_variable(x, name):
 def shadow_renamings(tasks, tier):
     '''(a): every program of the statement family (prelude included), in one of the homes it is well-formed in (rotating),
     with each of its variables that are declared by create / select / for each only and read through a variable access
-    renamed to each name of SHADOW_NAMES.'''
+    renamed to a name of SHADOW_NAMES.'''
     homes_of, order = {}, []
     for t in tasks:
         if t['family'] != 'statements':
@@ -228,10 +228,10 @@ def shadow_renamings(tasks, tier):
             homes_of[key] = []
             order.append(t)
         homes_of[key].append(t['home'])
-    out = []
+    out, turn = [], [0]
     for n, t in enumerate(order):
         homes = homes_of[repr(t['stmts'])]
-        for home in (homes if tier == 'thorough' else [homes[n % len(homes)]]):
+        for home in [homes[n % len(homes)]]:
             full, _, an = H.complete(t['stmts'], home)
             full = H.tolist(full)
             by_name = {}
@@ -240,9 +240,14 @@ def shadow_renamings(tasks, tier):
             for name in sorted(by_name):
                 if any(v.first is not None or v.dims for v in by_name[name]) or not reads_variable(full, name):
                     continue
-                names = [x for x in SHADOW_NAMES[tier] if x not in by_name]
-                if tier == 'quick':                     # one name per (program, variable), the names taking turns
-                    names = names[len(out) % len(names):][:1]
+                # one name of a constant per (program, variable), the names taking turns; thorough: and one of the other names
+                k = turn[0]
+                turn[0] += 1
+                names = [SHADOW_NAMES['quick'][(k + n // 4) % 2]]           # (not in step with the homes)
+                if tier == 'thorough':
+                    others = SHADOW_NAMES['thorough'][2:]
+                    names.append(others[(k + n // 4) % len(others)])
+                names = [x for x in names if x not in by_name]
                 for new in names:
                     out.append(dict(family='shadow', stmts=rename_variable(full, name, new), home=home, entry=t['entry'],
                                     part='renamed'))
@@ -375,14 +380,17 @@ def rescope_shapes(d1, d2, u2, tier):
 def rescope_programs(tier):
     '''Quick: per ordered pair of types (equal types included: the control) one pair of declaration forms -- the forms
     rotate so that every form of the menu is used as first and as second declaration -- every use of the second type,
-    every shape.  Thorough: every pair of declaration forms.'''
+    every shape.  Thorough: per pair of types as many pairs of forms as the longer of the two menus has forms (every
+    form of either type is then used with that pair of types).'''
     decls, uses = rescope_menu()
     progs = []
     k = 0
     for t1 in RESCOPE_TYPES:
         for t2 in RESCOPE_TYPES:
             if tier == 'thorough':
-                pairs = [(d1, d2) for d1 in decls[t1] for d2 in decls[t2]]
+                n1, n2 = len(decls[t1]), len(decls[t2])
+                pairs = [(decls[t1][(k + j) % n1], decls[t2][(k // len(RESCOPE_TYPES) + j) % n2]) for j in range(max(n1, n2))]
+                k += 1
             else:
                 pairs = [(decls[t1][k % len(decls[t1])], decls[t2][(k // len(RESCOPE_TYPES)) % len(decls[t2])])]
                 k += 1
@@ -405,7 +413,7 @@ def name_tasks(tasks, tier, seed=0):
     for fam, progs in (('shadow', shadow_product(tier)), ('rescope', rescope_programs(tier))):
         kept = 0
         for idx, core_stmts in enumerate(progs):
-            homes = H.HOMES if tier == 'thorough' else [H.HOMES[idx % len(H.HOMES)]]
+            homes = H.HOMES if tier == 'thorough' and fam == 'shadow' else [H.HOMES[idx % len(H.HOMES)]]
             for home in homes:
                 stmts = H.tolist(H.home_params(core_stmts, home))
                 key = (repr(stmts), home)
@@ -419,7 +427,7 @@ def name_tasks(tasks, tier, seed=0):
     bounds['rescope'].update(types=list(RESCOPE_TYPES), declaration_forms=dict((k, len(v)) for k, v in decls.items()),
                              uses=dict((k, len(v)) for k, v in uses.items()),
                              shapes=len(rescope_shapes(decls['instA'][0], decls['instB'][0], uses['instB'][0], tier)),
-                             homes='all' if tier == 'thorough' else 'one per program (rotating)')
+                             homes='one per program (rotating)')
     return out, bounds
 
 
